@@ -168,3 +168,125 @@ def entries_forward(ctx, R, rule):
         direct = t["dest"]["l"] == 0 and not t["dest"]["p"]
         ctx.ob(rule, "%s returns the callee's Result unchanged" % norm_path(entry.path), direct, entry.path,
                "return-callee-result", where=pat.where(t))
+
+
+# ---- loops and commutative reducers -------------------------------------------------------------
+def loop_next_sites(body, v):
+    """[(next_call_bb, switch_bb, some_target, none_target, term)] for `match Iterator::next(&mut it)` loop heads."""
+    out = []
+    for bi, t in body.calls():
+        if not callee_is(t, trait="Iterator", name="next"):
+            continue
+        dl = t["dest"]["l"]
+        for bj, root, pl, st in pat.discr_switches(body, v):
+            if pl["l"] == dl and not pl["p"]:
+                m = {val: tgt for val, tgt in st["targets"]}
+                none_t = m.get("0", st["otherwise"])
+                some_t = m.get("1", st["otherwise"])
+                out.append((bi, bj, some_t, none_t, t))
+    return out
+
+
+COMMUTATIVE_INT_OPS = ("BitOr", "BitAnd", "BitXor", "Add", "AddWithOverflow", "Mul", "MulWithOverflow")
+
+
+def verify_commutative_reducer(facts, body):
+    """True iff `body` folds a sequence into integer accumulators only by acc = acc (+) f(elem) with (+) commutative and
+    associative, and has no other order-dependent effect.  Returns (ok, why)."""
+    v = Vals(body)
+    heads = loop_next_sites(body, v)
+    if len(heads) != 1:
+        return False, "expected exactly one iterator loop, found %d" % len(heads)
+    nbb, sbb, some_t, none_t, nt = heads[0]
+    loop_blocks = body.reachable_from(some_t, avoid=frozenset([nbb]))
+    # locals with a (whole) definition outside the loop and one inside: accumulators
+    inside, outside = {}, set()
+    for bi, b in enumerate(body.blocks):
+        if b["cleanup"]:
+            continue
+        for s in b["stmts"]:
+            if s["k"] != "assign" or s["place"]["p"]:
+                continue
+            l = s["place"]["l"]
+            if bi in loop_blocks:
+                inside.setdefault(l, []).append(s)
+            else:
+                outside.add(l)
+    accs = [l for l in inside if l in outside and body.local_name(l)]
+    for l in accs:
+        tyk = facts.ty(body.local_ty(l)) or {}
+        if tyk.get("k") != "prim" or tyk.get("name") in ("f64", "f32"):
+            return False, "accumulator _%d is not an integer" % l
+        for s in inside[l]:
+            rv = s["rv"]
+            if rv["k"] == "binop" and rv["op"] in COMMUTATIVE_INT_OPS:
+                a, b2 = rv["a"], rv["b"]
+                sa = a["k"] in ("copy", "move") and a["place"]["l"] == l and not a["place"]["p"]
+                sb_ = b2["k"] in ("copy", "move") and b2["place"]["l"] == l and not b2["place"]["p"]
+                if sa != sb_:
+                    continue
+            elif rv["k"] == "use" and rv["op"]["k"] in ("copy", "move") and rv["op"]["place"]["p"] and rv["op"]["place"]["p"][0]["k"] == "field":
+                # `acc = move tmp.0` after a checked op: follow the tuple temp
+                tl = rv["op"]["place"]["l"]
+                d = v.single_def(tl)
+                if d and d[0] == "stmt" and d[3]["k"] == "binop" and d[3]["op"] in COMMUTATIVE_INT_OPS:
+                    continue
+            return False, "accumulator _%d updated by a non-commutative statement" % l
+    for bi in loop_blocks:
+        t = body.blocks[bi]["term"]
+        if t["k"] == "call" and bi != nbb:
+            for a in t["args"]:
+                if a["k"] in ("copy", "move") and "&mut" in body.local_ty(a["place"]["l"]):
+                    return False, "loop body passes a mutable reference to %s" % (t.get("callee", {}).get("path"))
+    if not accs:
+        return False, "no accumulator found"
+    return True, "accumulators %s updated only by commutative integer ops" % accs
+
+
+def hash_order_isolation(ctx, R, rule, roots):
+    """Order taint from iterating hash containers must not reach any function result reachable from `roots`
+    except through verified commutative reducers."""
+    from ..flow import Flow, fmt_source
+    f = ctx.facts
+    # candidate reducers: local callees that receive a hash-order tainted argument; verified ones kill the taint
+    reducers = {}
+    for key, b in f.mir.items():
+        ok, why = (False, "")
+        if b.arg_count >= 1 and not b.j.get("root"):
+            v = Vals(b)
+            if len(loop_next_sites(b, v)) == 1:
+                ok, why = verify_commutative_reducer(f, b)
+        if ok:
+            reducers[key] = why
+    fl = Flow(f, R, track_hash=True, hash_kill=frozenset(reducers))
+    n_src = 0
+    bad = []
+    seen = set()
+    work = list(roots)
+    while work:
+        b = work.pop()
+        if b.key in seen:
+            continue
+        seen.add(b.key)
+        sm = fl.summary(b)
+        ctx.fn(b.path)
+        hs = [s for s in sm.ret if s[0] == "hash"]
+        for pi, ws in sm.mut.items():
+            hs += [s for s in ws if s[0] == "hash"]
+        n_src += len([s for s in sm.internal if s[0] == "hash"])
+        if hs and not b.j.get("root"):
+            bad.append((b, hs))
+        for bi, t, cb in R.local_callees(b):
+            work.append(cb)
+        for cb in f.closures_of(b.path):
+            work.append(cb)
+    used = sorted(k for k in reducers if any(k == x.key for x in [f.mir[y] for y in seen if y in f.mir]))
+    ctx.note("hash-iteration sources seen: %d; verified commutative reducers: %s" % (n_src, sorted(reducers)))
+    for b, hs in bad:
+        ctx.ob(rule, "result of %s is independent of hash iteration order" % norm_path(b.path), False, b.path, "hash-order-leak",
+               detail="the value returned (or written through a parameter) by %s depends on the iteration order of a randomly seeded hash container: %s"
+                      % (norm_path(b.path), sorted(set(fmt_source(s) for s in hs))))
+    if not bad:
+        ctx.ob(rule, "no function result reachable from the roots depends on hash iteration order (%d functions, %d hash-iteration sites, "
+                     "killed only by verified reducers %s)" % (len(seen), n_src, sorted(norm_path(k) for k in reducers)), True, "*", "hash-order-leak")
+    return n_src
